@@ -75,6 +75,19 @@ void op_tt_null(World& w, const Op& op)
     tt.set_uri(id, std::nullopt); tt.set_third_party_source_id(id, std::nullopt);
     if (w.schema >= eng::engine_schema::schema_2_20_1) tt.set_active_on_load_loops(id, std::nullopt);
 }
+// 2.x: the opposite corner — every flag column true and every column the high-level API leaves at its default given a value
+// (a getter that "consumes" or "normalises" what it reads needs something other than the default to show it)
+void op_tt_full(World& w, const Op& op)
+{
+    std::shared_ptr<eng::v2::engine_library> lib = w.lib2 ? w.lib2 : std::make_shared<eng::v2::engine_library>(eng::v2::engine_library::load(w.directory));
+    auto tt = lib->track();
+    int64_t id = w.tracks.at((size_t)op.i.at(0)).id();
+    tt.set_is_played(id, true); tt.set_is_analyzed(id, true); tt.set_is_available(id, true); tt.set_is_metadata_of_packed_track_changed(id, true);
+    tt.set_is_performance_data_of_packed_track_changed(id, true); tt.set_is_metadata_imported(id, true); tt.set_is_beat_grid_locked(id, true); tt.set_explicit_lyrics(id, true);
+    tt.set_pdb_import_key(id, 77); tt.set_streaming_flags(id, 5); tt.set_streaming_source(id, std::string("src")); tt.set_uri(id, std::string("uri://x")); tt.set_third_party_source_id(id, 9);
+    tt.set_played_indicator(id, 123456); tt.set_album_art(id, std::string("art")); tt.set_play_order(id, 4); tt.set_bpm_analyzed(id, 123.5);
+    if (w.schema >= eng::engine_schema::schema_2_20_1) tt.set_active_on_load_loops(id, 3);
+}
 // a membership row whose track does not exist (the public add_track(int64_t) accepts any id; foreign keys are not enforced)
 void op_add_ghost(World& w, const Op& op) { w.crates.at((size_t)op.i.at(0)).add_track((int64_t)987654); }
 struct RegisterOps
@@ -82,6 +95,7 @@ struct RegisterOps
     RegisterOps()
     {
         World::register_op("tt_null", op_tt_null);
+        World::register_op("tt_full", op_tt_full);
         World::register_op("add_ghost", op_add_ghost);
     }
 } register_ops;
@@ -92,6 +106,7 @@ struct Dom : CompositeBase
     {
         auto v = CompositeBase::seeds(s);
         if (is_v2(s)) v.push_back("@1:create_track(2);tt_null(0)");
+        if (is_v2(s)) v.push_back("@1:create_track(2);create_track(0);tt_full(0);tt_full(1)");
         v.push_back("@1:create_track(2);create_track(0);create_root(|g);add_track(0,0);add_ghost(0);add_track(0,1)");  // a dangling entry between two real ones
         return v;
     }
